@@ -19,6 +19,7 @@ pub fn replay_file(path: &str) -> i32 {
     match d["kind"].as_str() {
         Some("engine_history") => replay_engine_history(d),
         Some("opseq") => replay_opseq(d),
+        Some("legal_calls") => replay_legal_calls(d),
         _ => {
             println!("detail: {}", serde_json::to_string_pretty(d).unwrap());
             0
@@ -81,4 +82,32 @@ fn replay_opseq(d: &Value) -> i32 {
         println!("reported: {}", d["what"]);
         0
     }
+}
+
+fn replay_legal_calls(d: &Value) -> i32 {
+    let g = GrammarSpec::from_json(&d["grammar"]);
+    let vocab = VocabSpec::from_json(&d["vocab"]);
+    let slices = Slices::from_json(&d["slices"]);
+    let f = Factory::new(&vocab, &slices).unwrap();
+    let mut m = f.matcher(&g);
+    println!("grammar: {}", g.short());
+    println!("vocab: {} ({} tokens)", vocab.name, vocab.n());
+    for op in d["ops"].as_array().cloned().unwrap_or_default() {
+        let op = op.as_str().unwrap_or("").to_string();
+        let (k, a) = op.split_once(':').unwrap_or(("", ""));
+        let n: u32 = a.parse().unwrap_or(0);
+        let mut probe = m.clone();
+        let mask_ok = probe.compute_mask().map(|mk| mk.is_allowed(n)).ok();
+        let r = match k {
+            "c" => m.consume_token(n).map_err(|e| e.to_string()),
+            "r" => m.rollback(n as usize).map_err(|e| e.to_string()),
+            _ => Err("unknown op".to_string()),
+        };
+        match k {
+            "c" => println!("commit {} {:?} (in mask: {:?}) -> {}", n, show(&vocab.tokens[n as usize]), mask_ok, r.map(|_| "ok".to_string()).unwrap_or_else(|e| format!("ERR {}", e.lines().next().unwrap_or("")))),
+            _ => println!("rollback {} -> {}", n, r.map(|_| "ok".to_string()).unwrap_or_else(|e| format!("ERR {}", e.lines().next().unwrap_or("")))),
+        }
+    }
+    println!("reported: {}", d["what"]);
+    0
 }
